@@ -38,6 +38,10 @@ func baselineEngine(p *plan.Plan) (*Engine, error) {
 
 func runC07(e *Engine, res *EpisodeResult) {
 	p := e.Plan
+	if p.Params["enum"] == 1 {
+		c07Enumerate(e, res)
+		return
+	}
 	termA := p.Params["termA"] == 1
 	ops := p.Tasks[0]
 	var iRunA, iGetA, iRunB, iGetB int
@@ -186,4 +190,80 @@ func runC07(e *Engine, res *EpisodeResult) {
 	} else if len(e.Violations) == 0 {
 		res.Inconclusive = fmt.Sprintf("only %d of %d ops completed", len(got), len(ops))
 	}
+}
+
+// c07Enumerate: for a short terminating program, cancel at EVERY VM instruction
+// k = 0..S+1 of the run under test, each with every caller-stall variant
+// (none, 0, 1, 3 steps and "until the VM has finished", at both stall sites).
+// Every (k, stall) pair is a complete sub-episode with its own engine, run in
+// the same bubble, checked by the same oracle.
+func c07Enumerate(e *Engine, res *EpisodeResult) {
+	p := e.Plan
+	sub := func(step int, stall *plan.Fault) (*Engine, *EpisodeResult) {
+		q := p.Clone()
+		delete(q.Params, "enum")
+		q.Ctxs[0] = plan.CtxSpec{Kind: "cancel", Step: step}
+		q.Faults = nil
+		if stall != nil {
+			q.Faults = []plan.Fault{*stall}
+		}
+		se := NewEngine(q)
+		sr := &EpisodeResult{}
+		runC07(se, sr)
+		e.Stats.Decisions += se.Stats.Decisions
+		e.Stats.Switches += se.Stats.Switches
+		e.Stats.VMSteps += se.Stats.VMSteps
+		e.Stats.SimNs += se.Stats.SimNs
+		for k, v := range se.Stats.Probes {
+			e.Stats.Probes[k] += v
+		}
+		for k, v := range se.Stats.Fired {
+			e.Stats.Fired[k] += v
+		}
+		res.Evals++
+		return se, sr
+	}
+	// length of the undisturbed run
+	se, sr := sub(1<<30, nil)
+	if se.Fatal != "" || sr.Inconclusive != "" || len(se.runs) == 0 {
+		res.Inconclusive = "enumeration: reference run inconclusive"
+		return
+	}
+	S := se.runs[0].Steps
+	if S > 400 {
+		res.Inconclusive = "enumeration: program too long"
+		return
+	}
+	stalls := []*plan.Fault{nil}
+	for _, site := range []string{"RunCtxCancelSeen", "RunCtxAborted"} {
+		for _, n := range []int{0, 1, 3, -1} {
+			stalls = append(stalls, &plan.Fault{Kind: plan.FaultStallCaller, Task: 0, Run: 0, Site: site, Steps: n})
+		}
+	}
+	for k := 0; k <= S+1; k++ {
+		for _, st := range stalls {
+			se, sr := sub(k, st)
+			if se.Fatal != "" {
+				e.Fatal = se.Fatal
+				return
+			}
+			desc := "no stall"
+			if st != nil {
+				desc = fmt.Sprintf("caller stalled at %s for %d steps", st.Site, st.Steps)
+			}
+			e.logf("SUB k=%d %s digest=%s", k, desc, se.Digest())
+			for _, v := range se.Violations {
+				e.violate(v.Oracle, "[cancel at instruction %d of %d, %s] %s", k, S, desc, v.Detail)
+			}
+			if len(se.Violations) > 0 {
+				return
+			}
+			if sr.Inconclusive != "" {
+				e.probe("enumSubInconclusive")
+			}
+		}
+	}
+	e.probe("enumeratedPrograms")
+	res.Nontrivial = true
+	res.Case = "enum|" + p.Notes["prog"] + "|" + fmt.Sprint(bucket(S))
 }
